@@ -243,6 +243,9 @@ func syllabicInsertDottedCircles(font *Font, buffer *Buffer, brokenSyllableType,
 			}
 			buffer.outInfo = append(buffer.outInfo, ginfo)
 		} else {
+			// the serial of the syllables wraps around: remember every syllable,
+			// not only the broken ones
+			lastSyllable = syllable
 			buffer.nextGlyph()
 		}
 	}
